@@ -668,6 +668,7 @@ func checkC08(c *Ctx) {
 	} else {
 		r.Unk("C08.memory-append", "(*history.memory).Write", "-", "anchor not found")
 	}
+	checkC08WriteGuard(c)
 }
 
 // ordinalOf numbers a call site among the calls to callee in fn (source order).
